@@ -180,8 +180,19 @@ def sampled(rng: random.Random, n: int) -> Iterator[Tuple[str, dict, dict]]:
             yield rng.choice([("pred", {"k": "NotBlank", "pid": 1}, s), ("proc", {"k": "strip", "pid": 7}, s),
                               ("pred", {"k": "MaxLength", "pid": 7, "n": rng.randint(0, 40)}, s),
                               ("proc", {"k": "upper", "pid": 7}, s), ("proc", {"k": "lower", "pid": 7}, s)])
-        else:
+        elif c < 0.93:
             xs = [rng.choice(ATOMS) for _ in range(rng.randint(5, 12))]
+            yield "pred", {"k": "UniqueItems", "pid": 7}, {"t": rng.choice(["list", "tuple"]), "oid": 0, "xs": xs}
+        else:
+            # long collections (13..80 items) of pairwise different values of one type each, plus values that are equal
+            # across types (1 / True / 1.0, 0 / False / 0.0 / Decimal 0): unique; half of the time one same-type duplicate
+            n = rng.randint(13, 80)
+            xs = [I(i) for i in rng.sample(range(2, 400), n)]
+            cross = [I(1), B(True), F(False, 1, 0), I(0), B(False), F(False, 0, 0), D(False, 0, 0), D(False, 1, 0)]
+            for a in rng.sample(cross, rng.randint(2, len(cross))):
+                xs.insert(rng.randrange(len(xs) + 1), a)
+            if rng.random() < 0.5:
+                xs.insert(rng.randrange(len(xs) + 1), rng.choice(xs))
             yield "pred", {"k": "UniqueItems", "pid": 7}, {"t": rng.choice(["list", "tuple"]), "oid": 0, "xs": xs}
 
 
